@@ -136,5 +136,10 @@ def run(ck, facts, tier, only=None):
             ck.fail(r3, "gradient1_manifold", "rule could not be established (%s)" % e, where)
     if only is not None:
         return
+    if only is None:
+        # "the product rule applied to manifolds reproduces second derivatives of a product": the product is Dual2 * Dual2 on numbers aligned by name — the
+        # operator rules (C02 R02.1) and the alignment rules (C03) are necessary conditions of the statement
+        from rules import deps
+        deps.include_ad(ck, facts, tier)
     ck.not_decided += ["the product-rule identity on concrete numbers (a consequence of R17.3 + C02)", "requested lists with repeated names (the IndexSet drops duplicates; the manifold then sizes its arrays by the raw list)"]
     ck.trusted += ["lib/cel.py array-comprehension semantics (guarded indexed writes in loops)", "indexmap get_index_of = position by name"]
